@@ -19,6 +19,8 @@ import AstGrepVerif.Lemmas.Position
 import AstGrepVerif.Lemmas.Outermost
 import AstGrepVerif.Lemmas.PostVisit
 import AstGrepVerif.Lemmas.PostInnermost
+import AstGrepVerif.Lemmas.PostVisitFixed
+import AstGrepVerif.Lemmas.PostInnermostFixed
 
 namespace AGV.C19
 open AGV Tree
@@ -273,6 +275,70 @@ theorem post_nonreentrant_innermost_partial (n : Tree) (hu : n.UniqueIds) (dbg n
   · next he => simp [foldNR, List.isEmpty_iff.1 he]
   · simp [foldNR, consAll]
 
+/-! ## the repaired post-order visit (`Post.visitFixed`: `calibrate_for_match` without the early
+`return` after a match)
+
+`Post.visit` above is the machine of the pinned code (v0.37.0) and the three theorems above stay
+as regression theorems about it.  `Post.visitFixed` (`Model/Traversal.lean`) differs in one place:
+after `match_depth = depth` the calibration falls through to the test
+`current_depth >= match_depth` and the loop that skips the ancestors. -/
+
+/-- the repair does not touch the reentrant visit (`calibrate_for_match` is not called) -/
+theorem post_fixed_reentrant_filter (n : Tree) (hu : n.UniqueIds) (dbg named : Bool) (m : Tree → Bool) :
+    Post.visitFixed dbg true named m n = .ok (n.postorder.filter (passes named m)) := by
+  rw [Post.visitFixed_reentrant, post_reentrant_filter n hu]
+
+/-- the repaired visit with `reentrant = false` is the repaired fold (`foldNRFixed` of
+`Spec/PostVisit.lean`), for builds with and without debug assertions -/
+theorem post_fixed_nonreentrant_fold (n : Tree) (hu : n.UniqueIds) (dbg named : Bool) (m : Tree → Bool) :
+    Post.visitFixed dbg false named m n
+      = foldNRFixed dbg (passes named m) (postItems 0 true n) 0 false := by
+  have hF : n.size ≤ travFuel n := by unfold travFuel; omega
+  have hnew : Post.new (travFuel n) n
+      = .ok ⟨leftmost (travFuel n) n [], some n.id, (leftmost (travFuel n) n []).path.length, 0⟩ := by
+    simp [Post.new, Cursor.new, traceDown_eq (some n.id) 0 (travFuel n) n [] 0 hF]
+  have hinv : Post.Inv n ⟨leftmost (travFuel n) n [], some n.id, (leftmost (travFuel n) n []).path.length, 0⟩ := by
+    simp [Post.Inv, leftmost_root, plugAll]
+  have hitems : Post.items ⟨leftmost (travFuel n) n [], some n.id, (leftmost (travFuel n) n []).path.length, 0⟩
+      = postItems 0 true n := by
+    simp [Post.items, leftmost_items (travFuel n) n [] hF, restItems, lastOf]
+  have h := Post.visitCollectFixed_fold n hu (travFuel n) (by unfold travFuel; omega) dbg named m (travFuel n) _ hinv
+    (by have := Post.remaining_le hinv; unfold travFuel at *; omega)
+  unfold passes
+  simp only [Post.visitFixed, hnew, h, hitems]
+
+/-- **The repaired post-order visit with `reentrant = false` reports exactly the innermost
+matches**, for every tree with unique node ids, every test and every start node — no restriction
+on where the matches sit (compare `post_nonreentrant_innermost_partial` for the pinned code).  The
+result is `.ok` for `dbg = true` as well: `debug_assert!(depth >= self.match_depth)` never fires,
+the depth counter never underflows and no loop exceeds the budget. -/
+theorem post_nonreentrant_innermost (n : Tree) (hu : n.UniqueIds) (dbg named : Bool) (m : Tree → Bool) :
+    Post.visitFixed dbg false named m n = .ok (innermost (passes named m) n) := by
+  rw [post_fixed_nonreentrant_fold n hu, foldNRFixed_innermost]
+
+/-- the recursive `innermost` says what the text says: it is the post-order of the subtree
+filtered by "passes the test and no proper descendant passes it" — as a sub-list, as a membership
+statement with the descendant relation `Below`, and as a literal `filter`
+(`noPassingBelow f x` = every node of `preorderList x.children` fails `f`). -/
+theorem innermost_spec (f : Tree → Bool) (n : Tree) :
+    (innermost f n).Sublist n.postorder ∧
+    (∀ x, x ∈ innermost f n ↔ x ∈ n.preorder ∧ f x = true ∧ ∀ y, Below y x → f y = false) ∧
+    innermost f n = n.postorder.filter (fun x => f x && x.noPassingBelow f) := by
+  have h := Tree.innermost_eq_filter f n
+  refine ⟨by rw [h]; exact List.filter_sublist, ?_, h⟩
+  intro x
+  rw [h, List.mem_filter, Tree.mem_postorder_iff, Bool.and_eq_true, Tree.noPassingBelow_iff]
+
+/-- the two together, readable without the model's specification functions: the repaired visit
+never panics and reports, in post-order, exactly the nodes of the subtree that pass the test and
+have no proper descendant that passes it -/
+theorem post_nonreentrant_no_matching_descendant (n : Tree) (hu : n.UniqueIds) (dbg named : Bool)
+    (m : Tree → Bool) :
+    ∃ l, Post.visitFixed dbg false named m n = .ok l ∧ l.Sublist n.postorder ∧
+      ∀ x, x ∈ l ↔ x ∈ n.preorder ∧ passes named m x = true ∧
+        ∀ y, Below y x → passes named m y = false :=
+  ⟨_, post_nonreentrant_innermost n hu dbg named m, (innermost_spec _ n).1, (innermost_spec _ n).2.1⟩
+
 /-! ## positions -/
 
 open Position in
@@ -389,6 +455,44 @@ example : NoPassingLastChild (passes false (fun t => t.kind == 6)) assignDoc := 
   simp [assignDoc, mk, Tree.preorder, preorderList] at hp
   rcases hp with rfl | rfl | rfl | rfl | rfl | rfl | rfl | rfl | rfl <;>
     simp [Tree.children] at hc <;> subst hc <;> rfl
+
+/-- regression: on the two counter-example documents the repaired visit reports the innermost
+matches, with debug assertions (no panic) and without -/
+example :
+    idsOf (Post.visitFixed true false false (fun t => t.kind == 9) assignDoc) = some [5] ∧
+    idsOf (Post.visitFixed false false false (fun t => t.kind == 9) assignDoc) = some [5] ∧
+    idsOf (Post.visitFixed true false false (fun t => t.kind == 5) commandDoc) = some [2, 3] ∧
+    idsOf (Post.visitFixed false false false (fun t => t.kind == 5) commandDoc) = some [2, 3] ∧
+    Post.visitFixed true false false (fun t => t.kind == 9) assignDoc
+      = .ok (innermost (fun t => t.kind == 9) assignDoc) ∧
+    Post.visitFixed true false false (fun t => t.kind == 5) commandDoc
+      = .ok (innermost (fun t => t.kind == 5) commandDoc) := by
+  refine ⟨by decide, by decide, by decide, by decide, by rfl, by rfl⟩
+
+/-- both documents are outside the guard of `post_nonreentrant_innermost_partial` (a passing node
+is a last child) and inside the only hypothesis of `post_nonreentrant_innermost` (unique ids, first
+two clauses of `post_nonreentrant_counterexample`) -/
+example : ¬ NoPassingLastChild (passes false (fun t => t.kind == 9)) assignDoc := by
+  intro h
+  have := h (mk 2 9 0 9 [mk 3 5 0 1 [], mk 4 6 2 3 [],
+    mk 5 9 4 9 [mk 6 5 4 5 [], mk 7 6 6 7 [], mk 8 5 8 9 []]])
+    (by simp [assignDoc, mk, Tree.preorder, preorderList])
+    (mk 5 9 4 9 [mk 6 5 4 5 [], mk 7 6 6 7 [], mk 8 5 8 9 []]) (by simp [mk, Tree.children])
+  revert this; decide
+
+example : ¬ NoPassingLastChild (passes false (fun t => t.kind == 5)) commandDoc := by
+  intro h
+  have := h (mk 1 2 0 2 [mk 2 5 0 2 []]) (by simp [commandDoc, mk, Tree.preorder, preorderList])
+    (mk 2 5 0 2 []) (by simp [mk, Tree.children])
+  revert this; decide
+
+/-- the repaired machine agrees with the pinned one where the pinned one was right -/
+example : idsOf (Post.visitFixed true false false (fun t => t.kind == 6) assignDoc) = some [4, 7] := by decide
+
+/-- `innermost_spec` on a document: the filter form evaluates to the same list -/
+example : (assignDoc.postorder.filter
+      (fun x => (fun t : Tree => t.kind == 9) x && x.noPassingBelow (fun t => t.kind == 9))).map Tree.id = [5] := by
+  decide
 
 /-! ## non-vacuity -/
 
